@@ -1211,6 +1211,7 @@ return 1;""",
         fail_code = []
 
         cxx_call_list = []
+        arg_call_index = {}  # position of argument in cxx_call_list
 
         # parse arguments
         # call function based on number of default arguments provided
@@ -1419,6 +1420,7 @@ return 1;""",
                             len(post_parse_code),
                             len(pre_call_code),
                             ",\t ".join(cxx_call_list),
+                            len(cxx_call_list),
                         )
                     )
                 npyargs = npyargs + 1
@@ -1485,6 +1487,8 @@ return 1;""",
             self.header_impl.add_statements_headers_PY(intent_blk)
 
             # Pass correct value to wrapped function.
+            # Save position in the call for implied arguments.
+            arg_call_index[arg_name] = len(cxx_call_list)
             if intent_blk.arg_call:
                 for arg in intent_blk.arg_call:
                     append_format(cxx_call_list, arg, fmt_arg)
@@ -1493,8 +1497,14 @@ return 1;""",
         # end for arg in args:
 
         # Add implied argument initialization to pre_call_code
+        # Also save the code to add to calls which do not pass
+        # all default arguments.
+        implied_code = []
         for arg in arg_implied:
+            start = len(pre_call_code)
             intent_blk = self.implied_blk(node, arg, pre_call_code)
+            implied_code.append(
+                (arg_call_index[arg.name], pre_call_code[start:]))
 
         need_blank = False  # needed before next debug header
         if not arg_names:
@@ -1543,6 +1553,7 @@ return 1;""",
                 len(post_parse_code),
                 len(pre_call_code),
                 ",\t ".join(cxx_call_list),
+                None,   # implied arguments are in pre_call_code
             )
         )
 
@@ -1583,7 +1594,7 @@ return 1;""",
             PY_code.append("switch (SH_nargs) {")
 
         # build up code for a function
-        for npyargs, post_declare_len, post_parse_len, pre_call_len, call_list in default_calls:
+        for npyargs, post_declare_len, post_parse_len, pre_call_len, call_list, ncall in default_calls:
             if found_default:
                 PY_code.append("case %d:" % npyargs)
                 PY_code.append(1)
@@ -1622,6 +1633,12 @@ return 1;""",
                     PY_code.append("// pre_call")
                 PY_code.extend(pre_call_code[:pre_call_len])
                 need_blank = True
+            if ncall is not None:
+                # Compute the implied arguments passed in this call.
+                for index, code in implied_code:
+                    if index < ncall:
+                        PY_code.extend(code)
+                        need_blank = True
             fmt.PY_call_list = call_list
 
             if options.debug and need_blank:
